@@ -564,13 +564,17 @@ def build_config(cid, v, gl, meshes):
     if nd >= 2:
         ang[0] = code_deg(v["anisoang"])
     return {"id": cid, "k": "config", "nd": nd, "mesh": mesh,
-            "model": {"nu": v["nu2"] / 2.0, "ranges": [r * h for r in v["ranges"]], "angles": ang, "sill": sill,
-                      "nugget": sill / v["nuggetinv"]},
+            "model": dict({"nu": v["nu2"] / 2.0, "ranges": [r * h for r in v["ranges"]], "angles": ang, "sill": sill,
+                           "nugget": sill / v["nuggetinv"]},
+                          **({"struct2": {"nu": v["nu2b"] / 2.0, "ranges": [r * h for r in v["struct2"]["ranges"]],
+                                          "sill": v["struct2"]["sill2"] / 2.0}} if c["nstruct"] == 2 else {})),
+            "driftorder": v["driftorder"],
             "data": dict({"x": [g.world(q) for q in v["data"]], "z": [float(z) for z in v["z"]]},
-                         **({"verr": [sill * f[0] / f[1] for f in v["verrfrac"]]} if v["verrfrac"] else {})),
+                         **({"verr": [(sill + (v["struct2"]["sill2"] / 2.0 if c["nstruct"] == 2 else 0.0)) * f[0] / f[1] for f in v["verrfrac"]]}
+                            if v["verrfrac"] else {})),
             "targets": [g.world(a) for a in nodes] + [g.world(q) for q in v["data"]],
             "v1": v["v1"], "v2": v["v2"], "lincoefs": v["lincoefs"],
-            "cgeps": tolval(v["cgeps"]), "cgepsset": sorted(tolval(t) for t in v["cgepsset"]), "cgnitermax": v["cgnitermax"],
+            "cgeps": tolval(v["cgeps"]), "cgepsset": sorted(tolval(t) for t in v["cgepsset"]), "cgnitermax": v["cgnitermax"], "cgrestarts": v["cgrestarts"],
             "eigentolset": sorted(tolval(t) for t in v["eigentolset"]), "eigentolnew": tolval(v["eigentolnew"]),
             "seed": 1000 + vlib.seed(), "nbsimu": 10, "nlogdet": 400, "heavy": 1 if cid % v["heavyevery"] == 0 else 0}, g
 
@@ -579,7 +583,7 @@ def judge_config(v, g, o, table, stats, heavy):
     """-> list of (rec, replay)"""
     c = v["c"]
     base = {"part": "ops", "nd": c["nd"], "fam": c["mesh"]["fam"], "type": "turbo" if c["mesh"]["fam"] in FAMILIES_TURBO else "std",
-            "rotated": bool(g.rotated), "alpha_integer": c["alpha2"] % 2 == 0, "aniso": c["aniso"], "layout": c["layout"], "verr": c["verr"]}
+            "rotated": bool(g.rotated), "alpha_integer": c["alpha2"] % 2 == 0, "aniso": c["aniso"], "layout": c["layout"], "verr": c["verr"], "nstruct": c["nstruct"], "drift": c["drift"]}
     out = []
 
     def dis(name, clause, tag, detail):
@@ -594,6 +598,8 @@ def judge_config(v, g, o, table, stats, heavy):
         name = ob["name"]
         lst = ms.get(name)
         if ob["heavy"] and not heavy:
+            continue
+        if name.startswith("Drift.") and c["drift"] == "none":       # NeedsDrift of the specification
             continue
         if not lst:
             dis(name, ob["clause"], "missing", "the harness produced no measure")
@@ -701,6 +707,9 @@ def part_b(ck, tier, exe, partA):
             stats["cfg:" + c["aniso"]] += 1
             stats["cfg:layout:" + c["layout"]] += 1
             stats["cfg:verr:" + c["verr"]] += 1
+            stats["cfg:nstruct:%d" % c["nstruct"]] += 1
+            stats["cfg:drift:" + c["drift"]] += 1
+            stats["cfg:nstruct%d:drift:%s" % (c["nstruct"], c["drift"])] += 1
         for rec, replay in lst:
             ck.disagree(rec, replay)
             ndis += 1
@@ -714,7 +723,8 @@ def part_b(ck, tier, exe, partA):
                 raise Broken("vacuous: clause %s never measured in %d-D" % (cl, nd))
     for key in ("cfg:rot", "cfg:norot", "cfg:alpha_integer", "cfg:alpha_noninteger", "cfg:iso", "cfg:aniso", "cfg:rotaniso",
                 "cfg:layout:spread", "cfg:layout:cluster", "cfg:layout:nodes", "cfg:layout:outside",
-                "cfg:verr:const", "cfg:verr:distinct", "cfg:verr:extreme"):
+                "cfg:verr:const", "cfg:verr:distinct", "cfg:verr:extreme", "cfg:nstruct:1", "cfg:nstruct:2",
+                "cfg:nstruct2:drift:none", "cfg:nstruct2:drift:const", "cfg:nstruct2:drift:linear", "cfg:nstruct1:drift:linear"):
         if stats[key] == 0:
             raise Broken("vacuous: no configuration of category %s" % key[4:])
     for ob in table:
